@@ -80,6 +80,32 @@ safe(FORM, "_find_hybrids", "sorted(unassigned, key=lambda x: x.core_location.st
      "and the early break depends on location.start <= core start of all tied elements alike")
 
 
+MOD = "antismash/modules/"
+safe("antismash/detection/cassis/__init__.py", "cleanup_outdir", "for directory in unused_motifs",
+     "removes one directory per element: deletions of distinct directories commute")
+safe("antismash/detection/genefunctions/__init__.py", "generate_html", "sorted(entries)",
+     "TailoringEntry is an order=True dataclass whose first field is its name, unique within a group: the order is total")
+safe(MOD + "cluster_compare/components.py", "compare_combos", "for combo in ref_combos.intersection(query_combos)",
+     "integer accumulation (found += min(...)): addition commutes")
+safe(MOD + "clusterblast/svg_builder.py", "sort_groups", "for group in groups",
+     "the groups are disjoint, so for each query id at most one group matches and the inner scan's order cannot matter")
+safe(MOD + "clusterblast/svg_builder.py", "build_colour_groups", "tuple(group)",
+     "merged groups share one set object and each tuple's members are re-sorted before use (`for name in sorted(group)`)")
+for _mod in ("lanthipeptides", "lassopeptides", "sactipeptides"):
+    _cls = {"lanthipeptides": "LanthiResults", "lassopeptides": "LassoResults", "sactipeptides": "SactiResults"}[_mod]
+    safe(MOD + f"{_mod}/specific_analysis.py", f"{_cls}.add_to_record", "for feature in self._new_cds_features",
+         "each gene is inserted into the record's sorted gene list at its bisection point (equal locations are refused), so "
+         "the resulting record does not depend on insertion order")
+safe(MOD + "t2pks/t2pks_analysis.py", "run_starter_unit_blastp", "for fasta_file in blastp_fasta_files",
+     "keyed dict update: sequence names are unique across the starter unit fasta files")
+safe(MOD + "nrps_pks/html_output.py", "NrpspksLayer._build_urls", "list(per_a_domain_predictions)",
+     "reaches only the query string of a Norine link in the HTML page; C17 covers results, JSON and GenBank output")
+safe("antismash/outputs/html/js.py", "convert_regions", "list(region.product_categories)",
+     "reaches only the JavaScript data of the HTML page; C17 covers results, JSON and GenBank output")
+safe("antismash/outputs/html/js.py", "get_region_css", "list(region.product_categories)",
+     "indexed [0] after the function returned early for more than one category: singleton")
+
+
 def is_set_type(text: Optional[str]) -> bool:
     if not text:
         return False
@@ -293,6 +319,8 @@ class Scanner:
             ok = all(isinstance(t, ast.Subscript) and {n.id for n in ast.walk(t.slice) if isinstance(n, ast.Name)} & loopvars
                      for t in stmt.targets)
             return None if ok else txt(stmt)[:100]
+        if isinstance(stmt, ast.Return) and (stmt.value is None or isinstance(stmt.value, ast.Constant)):
+            return None   # existence search: the same constant whichever element matches first
         if isinstance(stmt, (ast.Break, ast.Return)):
             return txt(stmt)[:100] + " (first match wins)"
         return txt(stmt)[:100]
@@ -448,8 +476,12 @@ class Scanner:
                     and self.is_set(rel, func, call.func.value):
                 gs = guards(call, stop=func)
                 recv = txt(call.func.value)
-                if any(re.fullmatch(rf"len\({re.escape(recv)}\) == 1", txt(t)) and pol for t, pol in gs):
-                    self.hold(rel, call, qual, text, "auto-safe: pop() of a set known to be a singleton")
+                single = any(re.fullmatch(rf"len\({re.escape(recv)}\) == 1", txt(t)) and pol for t, pol in gs) or \
+                    any(re.fullmatch(rf"len\({re.escape(recv)}\) > 1", txt(t)) and not pol for t, pol in gs) or \
+                    any(isinstance(n, ast.Assert) and txt(n.test) == f"len({recv}) == 1" and n.lineno < call.lineno
+                        for n in walk_local(func))
+                if single:
+                    self.hold(rel, call, qual, text, "auto-safe: pop() of a set known to have at most one element")
                 else:
                     self.flag(rel, call, qual, text, "set.pop() returns an arbitrary element", self.set_elem(rel, call.func.value))
             return
@@ -478,6 +510,12 @@ class Scanner:
             self.flag(rel, call, qual, text, f"{name}() materialises the set's iteration order", elem)
             return
         if isinstance(call.func, ast.Attribute) and call.func.attr == "join":
+            stmt = call
+            while not isinstance(stmt, ast.stmt):
+                stmt = getattr(stmt, "_parent")
+            if isinstance(stmt, (ast.Raise, ast.Assert)) or txt(stmt).startswith("logging."):
+                self.hold(rel, call, qual, text, "auto-safe: text of a log/exception message")
+                return
             self.flag(rel, call, qual, text, "str.join over a set", elem)
             return
         if isinstance(call.func, ast.Attribute) and call.func.attr in ("extend", "__iadd__") and \
